@@ -1,10 +1,10 @@
 package vk
 
 import (
-	"strings"
 	"context"
 	"fmt"
 	"strconv"
+	"strings"
 	"time"
 
 	"github.com/go-spring/log"
@@ -42,22 +42,22 @@ type AsyncAction struct {
 }
 
 type AsyncResult struct {
-	Submitted      []int64 // ids of enabled submissions in order
-	ExpDelivered   []int64 // model: delivered sequence after Stop
-	ExpDiscards    int64
-	Delivered      []int64 // observed at the gated appender
-	Delivered2     []int64 // observed at the second appender (if any)
-	Restricted     []int64 // observed at the reference whose range admits no submitted event (direct mode)
-	HasRestricted  bool
-	RawIDs         map[int64]bool // which submissions were raw writes
-	EmptyIDs       map[int64]bool // which of them had an empty payload
-	HighIDs        map[int64]bool // events at PANIC level (admitted by the reference restricted to [ERROR,MAX))
-	Counter        int64   // GetDiscardCounter(), -1 if unobservable (Refresh-built logger)
-	Overflows      int     // submissions that met a full buffer
-	BlockWaits     int     // Block submissions that had to wait
-	PolicyVisible  bool    // the three policies would have produced different survivors
-	Violation      string  // first violation of a call-level expectation (blocking behaviour)
-	Hang           string  // a wait that cannot legitimately take long did not finish
+	Submitted     []int64 // ids of enabled submissions in order
+	ExpDelivered  []int64 // model: delivered sequence after Stop
+	ExpDiscards   int64
+	Delivered     []int64 // observed at the gated appender
+	Delivered2    []int64 // observed at the second appender (if any)
+	Restricted    []int64 // observed at the reference whose range admits no submitted event (direct mode)
+	HasRestricted bool
+	RawIDs        map[int64]bool // which submissions were raw writes
+	EmptyIDs      map[int64]bool // which of them had an empty payload
+	HighIDs       map[int64]bool // events at PANIC level (admitted by the reference restricted to [ERROR,MAX))
+	Counter       int64          // GetDiscardCounter(), -1 if unobservable (Refresh-built logger)
+	Overflows     int            // submissions that met a full buffer
+	BlockWaits    int            // Block submissions that had to wait
+	PolicyVisible bool           // the three policies would have produced different survivors
+	Violation     string         // first violation of a call-level expectation (blocking behaviour)
+	Hang          string         // a wait that cannot legitimately take long did not finish
 }
 
 var (
@@ -109,8 +109,8 @@ func RunAsyncHistory(setup AsyncSetup, tagName, handleName string, actions []Asy
 
 	if setup.ViaRefresh {
 		m := map[string]string{
-			"enableCaller":                          "false",
-			"appender.gate.type":                    "Rec",
+			"enableCaller":                               "false",
+			"appender.gate.type":                         "Rec",
 			"logger." + handleName + ".type":             "AsyncLogger",
 			"logger." + handleName + ".tags":             tagName,
 			"logger." + handleName + ".level":            "INFO",
@@ -141,7 +141,9 @@ func RunAsyncHistory(setup AsyncSetup, tagName, handleName string, actions []Asy
 				_, _ = asyncHandle.Write([]byte{})
 			}
 		}
-		submitBig = func(id int64) { _, _ = asyncHandle.Write([]byte("id=" + strconv.FormatInt(id, 10) + " " + bigPad + "\n")) }
+		submitBig = func(id int64) {
+			_, _ = asyncHandle.Write([]byte("id=" + strconv.FormatInt(id, 10) + " " + bigPad + "\n"))
+		}
 		late := log.RegisterLevel(int32(310+setup.Size%180), "LATE"+strconv.Itoa(setup.Size%5)) // registered while the logger runs
 		submitLate = func(id int64) { log.Record(context.Background(), late, asyncTag, 0, log.Int("id", id)) }
 		stop = log.Destroy
@@ -438,7 +440,7 @@ func RunAsyncHistory(setup AsyncSetup, tagName, handleName string, actions []Asy
 		res.ExpDelivered = append(res.ExpDelivered, pendingID)
 	}
 	res.PolicyVisible = res.Overflows > 0 // from the first overflow on the three policies keep different survivors
-	close(gate.Release) // open the gate for good
+	close(gate.Release)                   // open the gate for good
 	if pendingID >= 0 {
 		select {
 		case <-pendingCh:
